@@ -21,6 +21,7 @@ import (
 	"sync"
 	"sync/atomic"
 	"testing"
+	"time"
 
 	"filippo.io/edwards25519"
 	"github.com/MixinNetwork/mixin/crypto"
@@ -474,7 +475,14 @@ func TestVerif_C12(t *testing.T) {
 			}(g)
 		}
 		close(start)
-		wg.Wait()
+		if !vC12WaitOrDeadlock(&wg) {
+			// every call that could hold the nonce's lock has returned, yet some callers are parked in the
+			// lock inside Response: they will never be answered
+			r.Violation("C12|CosiNonce.Response|blocked-forever", "concurrent Response calls on copies of one nonce handle block forever inside Response although no other call is in progress",
+				map[string]any{"trial": trial, "goroutines": G})
+			r.Finish()
+			return
+		}
 
 		var all []vC12Res
 		for g := range results {
@@ -678,4 +686,53 @@ func TestVerif_C12(t *testing.T) {
 		r.Inconclusive("most trials produced no response at all")
 	}
 	r.Finish()
+}
+
+
+// vC12WaitOrDeadlock waits for the trial's goroutines. It returns false only when, well after a
+// generous delay, the goroutines that have not finished are all parked in a mutex inside the nonce's
+// Response (observed twice, five seconds apart, with the same set still parked): a deadlock, not slowness.
+func vC12WaitOrDeadlock(wg *sync.WaitGroup) bool {
+	done := make(chan struct{})
+	go func() { wg.Wait(); close(done) }()
+	select {
+	case <-done:
+		return true
+	case <-time.After(20 * time.Second):
+	}
+	parked := func() int {
+		buf := make([]byte, 1<<22)
+		buf = buf[:runtime.Stack(buf, true)]
+		n, busy := 0, 0
+		for _, g := range strings.Split(string(buf), "\n\n") {
+			head := strings.SplitN(g, "\n", 2)[0]
+			inside := strings.Contains(g, "crypto.(*CosiNonce).Response") || strings.Contains(g, "crypto.(*nonce).respond")
+			if inside && strings.Contains(head, "sync.Mutex.Lock") {
+				n++
+			} else if inside {
+				busy++ // somebody is working inside Response and may hold the lock: not a deadlock
+			}
+		}
+		if busy > 0 {
+			return 0
+		}
+		return n
+	}
+	a := parked()
+	select {
+	case <-done:
+		return true
+	case <-time.After(5 * time.Second):
+	}
+	b := parked()
+	select {
+	case <-done:
+		return true
+	default:
+	}
+	if a > 0 && a == b {
+		return false
+	}
+	<-done // slow, not deadlocked: keep waiting (the runner's watchdog bounds this)
+	return true
 }
